@@ -233,7 +233,28 @@ impl Prop for C17 {
             0..=2 => {
                 // the full grid statistic(14) x small shapes
                 case.family = "stat_grid".into();
-                let shape = if rng.chance(1, 4) { vec![rng.range(1, 6)] } else { grid_shape(&mut rng) };
+                let shape = if rng.chance(1, 4) {
+                    vec![rng.range(1, 6)]
+                } else if rng.chance(1, 6) {
+                    // the element count of a shape some statistic is defined for, in another form:
+                    // factorisations of 4, 6, 8, 9, 12, 16, 27 with unit and long axes
+                    let n = *rng.pick(&[4usize, 6, 8, 9, 9, 9, 12, 16, 27]);
+                    let mut dims = vec![n];
+                    for _ in 0..rng.range(0, 2) {
+                        // split one axis by a divisor, or add a unit axis
+                        let i = rng.below(dims.len() as u64) as usize;
+                        let d = (2..=dims[i]).find(|d| dims[i] % d == 0 && rng.chance(1, 2)).unwrap_or(1);
+                        if d > 1 && d < dims[i] {
+                            dims[i] /= d;
+                            dims.insert(i, d);
+                        } else {
+                            dims.insert(rng.range(0, dims.len()), 1);
+                        }
+                    }
+                    dims
+                } else {
+                    grid_shape(&mut rng)
+                };
                 let spec = small_spec(&mut rng, shape);
                 let k = rng.range(1, 3);
                 let stats: Vec<&str> = (0..k).map(|_| *rng.pick(&STATS)).collect();
@@ -666,7 +687,7 @@ impl Prop for C17 {
                 let bytes = if rng.chance(1, 2) {
                     raw
                 } else {
-                    gen::bgzf_frame(&raw, &Layout { blocks: vec![], eof_marker: true, level: 6, bcf_minor: 0 }).0
+                    gen::bgzf_frame(&raw, &Layout { blocks: vec![], eof_marker: true, level: 6, bcf_minor: 0, no_contig_lines: false, }).0
                 };
                 case.args = vec!["create".into()];
                 if rng.chance(1, 2) {
@@ -686,7 +707,7 @@ impl Prop for C17 {
                     blocks: vec![],
                     eof_marker: rng.chance(3, 4),
                     level: 6,
-                bcf_minor: 0,
+                bcf_minor: 0, no_contig_lines: false,
                 };
                 let mut bytes = gen::encode(&vcf, container, &layout).map(|x| x.0).unwrap_or(vcf.clone());
                 if rng.chance(1, 2) {
